@@ -24,11 +24,18 @@ query FragOp { a { ...FA } }
 query ScalarOp { version }
 query ArgsOp($id: ID!, $flt: Flt) { byId(id: $id, flt: $flt) { id rank } }
 subscription SubOp { ticks }
+query TypenameAndField { __typename a { id } }
+query OnlyTypename { __typename }
+query RootFragment { ...RootInfo }
 fragment FA on A { a1 tags }
+fragment RootInfo on Query { __typename version }
 """
-OPS = {"OneField": False, "ManyFields": False, "UnionOp": False, "FragOp": False, "ScalarOp": False, "ArgsOp": True, "SubOp": False}
+OPS = {"OneField": False, "ManyFields": False, "UnionOp": False, "FragOp": False, "ScalarOp": False, "ArgsOp": True, "SubOp": False,
+       "TypenameAndField": False, "OnlyTypename": False, "RootFragment": False}
 KIND = {"OneField": "one_field", "ManyFields": "many_fields", "UnionOp": "union", "FragOp": "fragment", "ScalarOp": "scalar",
-        "ArgsOp": "arguments", "SubOp": "subscription"}
+        "ArgsOp": "arguments", "SubOp": "subscription", "TypenameAndField": "typename_and_field", "OnlyTypename": "only_typename",
+        "RootFragment": "root_fragment_two_fields"}
+MANY = ("many_fields", "typename_and_field", "root_fragment_two_fields")     # Plugins!SingleTopLevel is FALSE for these
 PATH = {"shorter": "ariadne_codegen.contrib.shorter_results.ShorterResultsPlugin",
         "extract": "ariadne_codegen.contrib.extract_operations.ExtractOperationsPlugin",
         "fwdrefs": "ariadne_codegen.contrib.client_forward_refs.ClientForwardRefsPlugin",
@@ -69,7 +76,7 @@ def norm_req(r):
 
 
 def top_key(opname):
-    return {"OneField": "a", "UnionOp": "u", "FragOp": "a", "ScalarOp": "version", "ArgsOp": "byId", "SubOp": "ticks"}.get(opname)
+    return {"OneField": "a", "UnionOp": "u", "FragOp": "a", "ScalarOp": "version", "ArgsOp": "byId", "SubOp": "ticks", "OnlyTypename": "__typename"}.get(opname)
 
 
 def run(tier, work, replay=None):
@@ -161,9 +168,9 @@ def run(tier, work, replay=None):
                     else:
                         ret, same_res = "full_model", False
                         v.violation(f2, "result_differs", {"plugged": pr, "plain": br})
-                if "shorter" in pl and KIND[opname] != "many_fields" and ret != "single_field" and same_res:
+                if "shorter" in pl and KIND[opname] not in MANY and ret != "single_field" and same_res:
                     v.violation(f2, "shorter_results_did_not_unwrap", {"plugged": pr})
-                if ("shorter" not in pl or KIND[opname] == "many_fields") and ret == "single_field":
+                if ("shorter" not in pl or KIND[opname] in MANY) and ret == "single_field":
                     v.violation(f2, "unwrapped_without_shorter_results", {"plugged": pr})
             if "extract" in pl and o.get("ops_module"):
                 const = {k.replace("_", "").lower(): val for k, val in (o.get("constants") or {}).items()}
